@@ -75,6 +75,16 @@ def check(run):
             subst.pop(did, None)
         for c in fn.calls():
             cn = q.callee_name(c)
+            if cn == 'std::find' and len(c.get('args', [])) == 3:
+                # a [first, last) scan: its end must be exactly the end of the buffer (start + len)
+                nscan += 1
+                last = q.linform(fn, c['args'][1], subst)
+                construct = '%s: find(%s, %s, …)' % (fn.norm, q.render(fn, c['args'][0]), q.render(fn, c['args'][1]))
+                if last is None:
+                    run.unrecognised('R12', 'remaining-length', construct, fn.loc(c), 'the end of the scanned range is not linear in start/len')
+                else:
+                    run.check(last == target, 'R12', 'remaining-length', construct, fn.loc(c), 'the scan ends at %s, not at %s + %s' % (q.render(fn, c['args'][1]), base, ln), 'scans up to %s + %s' % (base, ln))
+                continue
             if cn not in SCANS:
                 continue
             nscan += 1
@@ -91,7 +101,7 @@ def check(run):
                           q.render(fn, c['args'][pi]), q.render(fn, c['args'][ni]), base, fmt(tot, base), ln,
                           ('%d byte(s) past' % (tot[1])) if (tot[0] == target[0] and tot[1] > 0) else 'a range that is not exactly up to'),
                       'p + n == %s + %s' % (base, ln), detail={'p': p, 'n': n})
-    if nscan < 6:
+    if nscan < 4:
         run.broke('only %d scan sites found in parse_request/find_request_len (6 confirmed by hand)' % nscan)
 
     run.clause('R12 inside find(): the loop guard entails i + nsize <= hsize for the memcmp window [hay+i, hay+i+nsize)')
@@ -235,13 +245,28 @@ def check(run):
             if not any(nulltest(pr, a, d0['name']) is True and not pol for a, pol in g):
                 okv = False; why = 'header is advanced to a search result that was not null-checked'
         run.check(okv, 'R12', 'loop-variant', PR + ': header loop', pr.loc(), why, 'header := find(header + c, …) with c > 0, null-checked: strictly increasing, bounded by start + len')
-    # string constructions from ordered, checked pointers
+    # string constructions from ordered, checked pointers: string(first, last) built from two positions inside the header loop
+    def ptr_root(e):
+        e = q.strip_casts(e)
+        while is_node(e) and e['k'] == 'bin' and e['op'] in ('+', '-'):
+            e = q.strip_casts(e['lhs'])
+        return e
+    slocs = search_locals(pr)
     for n in pr.all_nodes():
         if n['k'] == 'construct' and strip_targs(n.get('cls', '')).endswith('basic_string') and len(n.get('args', [])) >= 2:
+            r0, r1 = ptr_root(n['args'][0]), ptr_root(n['args'][1])
+            if not (is_node(r0) and is_node(r1) and r0['k'] == 'ref' and r1['k'] == 'ref' and r0.get('dk') == 'local' and r1.get('dk') == 'local'):
+                continue
+            if not any(a['k'] in ('while', 'for') for a in pr.ancestors(n)):
+                continue
             a0, a1 = q.render(pr, n['args'][0]), q.render(pr, n['args'][1])
-            if a0 in ('header', '(value + 1)'):
-                g = [(q.render(pr, a), p) for a, p in q.guards_at(pr, n)]
-                run.check(('(value > next)', False) in g, 'R5', 'range-ordered', '%s: string(%s, %s)' % (PR, a0, a1), pr.loc(n), 'a string is built from two pointers whose order was not tested (value <= next)', 'dominated by !(value > next)')
+            g = q.guards_at(pr, n)
+            # ordered by a dominating comparison of the two positions, or by construction (the second is the result of a search that started at the first)
+            by_guard = q.establishes_order(pr, g, r1, r0, strict=False) is not None
+            starts = [q.render(pr, ptr_root(x['args'][0])) for _s, d in q.local_defs(pr, r1['did']) for x in walk(d) if x['k'] == 'call' and (q.callee_name(x) in SCANS or q.callee_name(x) == 'std::find') and x.get('args')]
+            by_search = bool(starts) and all(s_ == q.render(pr, r0) for s_ in starts)
+            run.check(by_guard or by_search, 'R5', 'range-ordered', '%s: string(%s, %s)' % (PR, a0, a1), pr.loc(n), 'a string is built from two pointers whose order was not established (%s <= %s)' % (q.render(pr, r0), q.render(pr, r1)),
+                      'ordered by a dominating comparison or by construction')
     run.clause('last duplicate header wins: the header map is written by overwrite (operator[] assignment), not by first-wins insertion')
     hw = []
     for n in pr.all_nodes():
